@@ -1880,3 +1880,189 @@ Proof.
       * destruct (ts maxsz s _) as [[r2 s2] b2]. rewrite rev_app_distr, rev_involutive, <- app_assoc. reflexivity.
       * rewrite rev_app_distr, rev_involutive, sumsz_app, <- Hs. rewrite (ts_size _ _ _ _ _ _ T). lia.
 Qed.
+
+(* ---------- flattening the visited batches ---------- *)
+
+Definition above_id (lo : N) (X : list entry) : list entry := filter (fun e => lo <? batch_id (e_index e)) X.
+
+Lemma ids_sorted_ge : forall X c x, ids_sorted c X -> In x X -> c <= batch_id (e_index x).
+Proof.
+  induction X as [|e X IH]; intros c x H HI; [contradiction|].
+  destruct H as [A B]. destruct HI as [<-|HI]; [exact A|]. pose proof (IH _ _ B HI). lia.
+Qed.
+
+Lemma ids_split : forall X lo, ids_sorted lo X -> X = bfilter lo X ++ above_id lo X.
+Proof.
+  induction X as [|e X IH]; intros lo H; [reflexivity|].
+  destruct H as [A B]. unfold bfilter, above_id in *. cbn [filter].
+  destruct (batch_id (e_index e) =? lo) eqn:E.
+  - apply N.eqb_eq in E. assert (lo <? batch_id (e_index e) = false) as -> by (apply N.ltb_ge; lia).
+    cbn [app]. f_equal. apply IH. now rewrite <- E.
+  - apply N.eqb_neq in E. assert (lo <? batch_id (e_index e) = true) as -> by (apply N.ltb_lt; lia).
+    rewrite (filter_nil (fun e0 => batch_id (e_index e0) =? lo) X).
+    + cbn [app]. f_equal. symmetry. apply filter_all. intros x HI. apply N.ltb_lt.
+      pose proof (ids_sorted_ge _ _ _ B HI). lia.
+    + intros x HI. apply N.eqb_neq. pose proof (ids_sorted_ge _ _ _ B HI). lia.
+Qed.
+
+Lemma ids_sorted_above : forall X lo, ids_sorted lo X -> ids_sorted (lo + 1) (above_id lo X).
+Proof.
+  induction X as [|e X IH]; intros lo H; [exact I|].
+  destruct H as [A B]. unfold above_id in *. cbn [filter].
+  destruct (lo <? batch_id (e_index e)) eqn:E.
+  - apply N.ltb_lt in E. cbn [ids_sorted]. split; [lia|].
+    rewrite filter_all; [exact B|]. intros x HI. apply N.ltb_lt. pose proof (ids_sorted_ge _ _ _ B HI). lia.
+  - apply N.ltb_ge in E. apply IH. assert (batch_id (e_index e) = lo) as <- by lia. exact B.
+Qed.
+
+Lemma bfilter_above : forall X lo b, lo < b -> bfilter b (above_id lo X) = bfilter b X.
+Proof.
+  intros X lo b H. unfold bfilter, above_id. rewrite filter_comm. apply filter_all.
+  intros x HI. apply filter_In in HI. destruct HI as [_ HI]. apply N.eqb_eq in HI. apply N.ltb_lt. lia.
+Qed.
+
+Lemma flat_prefix : forall (T : list entry -> list entry) g n cnt lo X,
+  ids_sorted lo X ->
+  (forall x, In x X -> batch_id (e_index x) < lo + N.of_nat cnt) ->
+  (forall x b, In x X -> lo <= b <= batch_id (e_index x) -> exists raw, g (KBatch n b) = Some (VBatch raw)) ->
+  (forall b raw, lo <= b -> g (KBatch n b) = Some (VBatch raw) -> T raw = bfilter b X) ->
+  concat (map T (bprefix g n lo cnt)) = X.
+Proof.
+  intros T g n. induction cnt as [|c IH]; intros lo X HS HB HE HT.
+  - destruct X as [|x X]; [reflexivity|]. exfalso.
+    pose proof (HB x (or_introl eq_refl)). destruct HS as [A _]. lia.
+  - cbn [bprefix]. destruct (g (KBatch n lo)) as [v|] eqn:G.
+    + destruct v as [| | | | |raw];
+        try (destruct X as [|x X]; [reflexivity|]; exfalso; destruct HS as [A _];
+             destruct (HE x lo (or_introl eq_refl) ltac:(lia)) as (raw & Y); congruence).
+      cbn [map concat]. rewrite (HT lo raw ltac:(lia) G). rewrite (ids_split X lo HS) at 2. f_equal.
+      apply IH.
+      * now apply ids_sorted_above.
+      * intros x HI. unfold above_id in HI. apply filter_In in HI. destruct HI as [HI _]. pose proof (HB x HI). lia.
+      * intros x b HI Hb. unfold above_id in HI. apply filter_In in HI. destruct HI as [HI _].
+        apply (HE x b HI). lia.
+      * intros b raw' Hb G'. rewrite (HT b raw' ltac:(lia) G'). symmetry. apply bfilter_above. lia.
+    + destruct X as [|x X]; [reflexivity|]. exfalso. destruct HS as [A _].
+      destruct (HE x lo (or_introl eq_refl) ltac:(lia)) as (raw & Y). congruence.
+Qed.
+
+Lemma contig_id_between : forall X i x b, contig i X -> In x X ->
+  batch_id i <= b <= batch_id (e_index x) -> exists y, In y X /\ batch_id (e_index y) = b.
+Proof.
+  intros X i x b HC HI Hb. pose proof (contig_bounds _ _ _ HC HI) as Bx.
+  destruct (N.eq_dec b (batch_id i)) as [->|Hne].
+  - destruct (contig_nth _ _ i HC ltac:(lia)) as (y & Y1 & Y2). exists y. split; [auto | now rewrite Y2].
+  - assert (i < b * bsz <= e_index x) as Hr by (bid; lia).
+    destruct (contig_nth _ _ (b * bsz) HC ltac:(lia)) as (y & Y1 & Y2). exists y. split; [auto|].
+    rewrite Y2. bid. lia.
+Qed.
+
+Lemma restore_idem : forall R pi, good_from pi 1 R -> restore_if_many R = R.
+Proof.
+  intros [|e0 [|e1 r]] pi H; try reflexivity. cbn [restore_if_many]. unfold restore_batch.
+  destruct H as (A & B & C).
+  destruct (good_last_bounds (e1 :: r) _ _ e0 C ltac:(discriminate)) as [_ I2].
+  change (last (e0 :: e1 :: r) e0) with (last (e1 :: r) e0).
+  assert (e_term (last (e1 :: r) e0) =? 0 = false) as -> by (apply N.eqb_neq; lia). reflexivity.
+Qed.
+
+Lemma batch_range_empty : forall m n lo hi, hi <= lo -> kv_range m (KBatch n lo) (KBatch n hi) false = [].
+Proof.
+  intros m n lo hi H. unfold kv_range. apply filter_nil. intros [k v] _. cbn [fst]. unfold in_rangeb.
+  destruct (key_leb (KBatch n lo) k) eqn:E1; [|reflexivity]. destruct (key_ltb k (KBatch n hi)) eqn:E2; [|reflexivity].
+  exfalso. apply key_leb_spec in E1. apply key_ltb_spec in E2. unfold KBatch in *.
+  destruct (pre_between _ _ _ _ _ _ E1 E2) as (x & _ & Hx). lia.
+Qed.
+
+Lemma nil_no_in : forall {A} (l : list A), (forall x, ~ In x l) -> l = [].
+Proof. intros A [|a l] H; [reflexivity|]. exfalso. apply (H a). now left. Qed.
+
+Lemma iterate_refines_b : forall d s n low high maxsz, RB d s ->
+  spec_wf_query s (QIter n low high maxsz) = true ->
+  canon (QIter n low high maxsz) (b_iterate d n low high maxsz) = spec_answer s (QIter n low high maxsz).
+Proof.
+  intros d s n low high maxsz HRB Hwf. pose proof (RB_R _ _ HRB) as HR. destruct HRB as (HS & HW & H).
+  destruct (H n) as [_ HB HC].
+  cbn [spec_wf_query] in Hwf. rewrite !andb_true_iff in Hwf. destruct Hwf as (((W1 & W2) & W3) & W4).
+  apply N.ltb_lt in W1. apply N.leb_le in W2.
+  cbn [spec_answer]. unfold b_iterate, p_iterate_with.
+  destruct (filter_range_contig _ _ low high HC ltac:(lia)) as [FC FL].
+  set (F := filter (in_range low high) (n_ents (s n))) in *.
+  destruct (get_max_index_R d (sstrip s) n HR) as [HM|[HM HL]]; rewrite HM;
+    unfold sstrip in *; rewrite n_last_strip in *.
+  2:{ unfold n_last in HL. assert (n_ents (s n) = []) as HE by (apply nlen_zero; lia).
+      subst F. rewrite HE. reflexivity. }
+  fold (n_last (s n)) in FL. unfold batched_iterate.
+  set (last := n_last (s n)) in *.
+  set (high' := if last + 1 <? high then last + 1 else high).
+  assert (Hh : high' = N.min high (last + 1)).
+  { unfold high'. destruct (last + 1 <? high) eqn:X; [apply N.ltb_lt in X | apply N.ltb_ge in X]; lia. }
+  destruct (batch_id_range low high') as [lowid highid] eqn:EBR.
+  assert (Hlow : lowid = batch_id low).
+  { unfold batch_id_range in EBR. destruct (high' mod bsz =? 0); now inversion EBR. }
+  set (Tf := fun b => filter (in_range low high') (restore_if_many b)).
+  (* the in-range part of the log, seen through the clamped bound *)
+  assert (HF' : filter (in_range low high') (n_ents (s n)) = F).
+  { unfold F. apply filter_ext_in. intros e HI. pose proof (contig_bounds _ _ _ HC HI) as Be.
+    unfold in_range. f_equal. unfold last, n_last in Hh.
+    destruct (e_index e <? high') eqn:X1; destruct (e_index e <? high) eqn:X2; auto;
+      [apply N.ltb_lt in X1; apply N.ltb_ge in X2 | apply N.ltb_ge in X1; apply N.ltb_lt in X2]; lia. }
+  assert (HFhi : forall x, In x F -> batch_id (e_index x) < highid \/ highid <= lowid).
+  { intros x HI. rewrite <- HF' in HI. apply filter_In in HI. destruct HI as [_ HI].
+    unfold in_range in HI. apply andb_true_iff in HI. destruct HI as [A B]. apply N.leb_le in A. apply N.ltb_lt in B.
+    left. unfold batch_id_range in EBR. destruct (high' mod bsz =? 0) eqn:EM.
+    - apply N.eqb_eq in EM. inversion EBR. subst. now apply aligned_spec.
+    - inversion EBR. subst. pose proof (batch_id_mono (e_index x) high' ltac:(lia)). lia. }
+  assert (HT : forall b raw, lowid <= b -> kv_get (p_kv d) (KBatch n b) = Some (VBatch raw) -> Tf raw = bfilter b F).
+  { intros b raw _ G. destruct (bc_all _ _ _ _ HB _ _ G) as (R1 & R2 & R3 & R4). unfold Tf.
+    rewrite (filter_ext_in (in_range low high') (fun x => in_range low high' x && in_log (s n) x)).
+    - rewrite filter_and, R4. rewrite <- HF'. unfold bfilter. apply filter_comm.
+    - intros x _. destruct (in_range low high' x) eqn:X; [|reflexivity]. cbn [andb]. symmetry.
+      unfold in_range in X. apply andb_true_iff in X. destruct X as [A B]. apply N.leb_le in A. apply N.ltb_lt in B.
+      apply in_log_range. fold last. lia. }
+  assert (HE : forall x b, In x F -> lowid <= b <= batch_id (e_index x) ->
+            exists raw, kv_get (p_kv d) (KBatch n b) = Some (VBatch raw)).
+  { intros x b HI Hb. rewrite Hlow in Hb. destruct (contig_id_between F low x b FC HI Hb) as (y & Y1 & <-).
+    apply (bc_exists _ _ _ _ HB). unfold F in Y1. apply filter_In in Y1. tauto. }
+  assert (HIS : ids_sorted lowid F) by (rewrite Hlow; now apply contig_ids_sorted).
+  (* what iterateBatches returns, flattened, is the in-range part of the log *)
+  assert (HBS : exists bs, iterate_batches (p_kv d) n lowid highid = Some bs /\ concat (map Tf bs) = F).
+  { unfold iterate_batches. destruct (lowid + 1 =? highid) eqn:E1.
+    - apply N.eqb_eq in E1. unfold get_batch_from_db.
+      destruct (kv_get (p_kv d) (KBatch n lowid)) as [v|] eqn:G.
+      + destruct (bc_typed _ _ _ _ HB _ _ G) as (raw & ->).
+        destruct (bc_all _ _ _ _ HB _ _ G) as (R1 & R2 & R3 & R4).
+        exists [restore_if_many raw]. split; [reflexivity|]. cbn [map concat]. rewrite app_nil_r.
+        unfold Tf. rewrite (restore_idem _ 0 R2).
+        pose proof (flat_prefix Tf (kv_get (p_kv d)) n 1 lowid F HIS) as FP. cbn [bprefix] in FP.
+        rewrite G in FP. cbn [map concat] in FP. rewrite app_nil_r in FP. apply FP; auto.
+        intros x HI. destruct (HFhi x HI); lia.
+      + exists []. split; [reflexivity|]. cbn [map concat].
+        pose proof (flat_prefix Tf (kv_get (p_kv d)) n 1 lowid F HIS) as FP. cbn [bprefix] in FP.
+        rewrite G in FP. cbn [map concat] in FP. apply FP; auto.
+        intros x HI. destruct (HFhi x HI); lia.
+    - destruct (N.le_gt_cases highid lowid) as [X|X].
+      + rewrite batch_range_empty by auto. exists []. split; [reflexivity|]. cbn [map concat].
+        symmetry. apply nil_no_in. intros x HI.
+        pose proof (ids_sorted_ge _ _ _ HIS HI) as A.
+        destruct (HFhi x HI) as [Y|Y]; [lia|].
+        pose proof HI as HI2. rewrite <- HF' in HI2. apply filter_In in HI2.
+        destruct HI2 as [_ HI2]. unfold in_range in HI2. apply andb_true_iff in HI2. destruct HI2 as [A1 B1].
+        apply N.leb_le in A1. apply N.ltb_lt in B1.
+        unfold batch_id_range in EBR. destruct (high' mod bsz =? 0) eqn:EM; inversion EBR; subst lowid highid; bid; lia.
+      + set (cnt := N.to_nat (highid - lowid)).
+        assert (highid = lowid + N.of_nat cnt) as Hc by (unfold cnt; lia).
+        unfold KBatch. rewrite Hc. rewrite range_sparse by auto.
+        rewrite (batches_scan_sparse cnt (p_kv d) n lowid _ _ HB).
+        exists (bprefix (kv_get (p_kv d)) n lowid cnt). split; [reflexivity|].
+        apply flat_prefix; auto. intros x HI. destruct (HFhi x HI); lia. }
+  destruct HBS as (bs & -> & HFl).
+  assert (Hres : iter_batches bs low high' maxsz low 0 [] = take_size maxsz 0 F).
+  { rewrite (iter_batches_spec bs low high' maxsz low 0 []).
+    - fold Tf. rewrite HFl. rewrite ts_take_size. destruct (ts maxsz 0 F) as [[r s0] b]. reflexivity.
+    - fold Tf. rewrite HFl. exact FC.
+    - reflexivity. }
+  destruct bs as [|b0 bs'].
+  - cbn [map concat] in HFl. rewrite <- HFl. reflexivity.
+  - rewrite Hres. destruct (take_size maxsz 0 F). reflexivity.
+Qed.
